@@ -36,7 +36,10 @@ def worker_env(cfg):
         env["ASAN_OPTIONS"] = "detect_leaks=0:abort_on_error=1:handle_abort=1:allocator_may_return_null=1:symbolize=1:quarantine_size_mb=32"
         env["UBSAN_OPTIONS"] = "print_stacktrace=1:halt_on_error=1"
         # route Python's own allocations (ctypes buffers) through the sanitizer's malloc so that they get red zones
-        if os.environ.get("VF_NO_PYMALLOC") != "1":
+        # vf.lib.buf() hands out libc-malloc blocks in sanitizer workers (ASan red zones around every buffer given to the library).
+        # Routing ALL Python allocations through the sanitizer allocator (PYTHONMALLOC=malloc) would also cover raw `bytes`
+        # arguments, but it slows the big-integer reference model 4-20x inside these workers (measured), so it is opt-in.
+        if os.environ.get("VF_PYMALLOC") == "1":
             env["PYTHONMALLOC"] = "malloc"
         env["VF_MALLOC_BUF"] = "1"
         if os.environ.get("VF_ASAN_EXTRA"):
